@@ -6,7 +6,7 @@ Line protocol for C06 (see harness/c06.py). The driver is stateful:
   sys <rows: coefs;coefs;...> <discs: i,i|i,...>                                 -> ok
   cfg <j|g|n> <res idx> <groups i,i|i> <warm idx> <tol> <maxit> <scal 0..5> <omega> <none|aitken|secant|adsq> <warm 0|1>
                                                                                   -> ok   (fresh MDA object)
-  run <fuel> <consts> <start>   -> <converged|maxIter|nan|capped> it=<n> hist=<squared normed residuals> out=<data>
+  run <fuel> <consts> <start>   -> <converged|maxIter|nan|capped> it=<n> hist=<squared normed residuals> raw=<squared residual norms> out=<data>
 `run` executes the current MDA object once more (scaling data and last outputs are kept).
 -/
 
@@ -57,7 +57,7 @@ def step' (d : D) (line : String) : D × String :=
       let r := execute sys c fuel d.st start
       let st' : MState := { sd := r.sd, lastOut := some r.data }
       ({ d with st := st' },
-        s!"{showOutcome r.outcome} it={r.hist.length} hist={showRatList r.hist} out={showRatList r.data}")
+        s!"{showOutcome r.outcome} it={r.hist.length} hist={showRatList r.hist} raw={showRatList r.raw} out={showRatList r.data}")
     | _, _, _, _ => (d, "bad-run")
   | _ => (d, "bad-op")
 
